@@ -233,8 +233,10 @@ pub unsafe extern "C" fn mcount_handler(ret: usize) {
         return;
     }
     ENTRIES.with(|e| e.set(e.get() + 1));
+    // in the dense prologue of an aligned operation start every function entry counts, arithmetic kernels
+    // included: a table that is being filled, a buffer that is being copied, must be interruptible there
     #[allow(static_mut_refs)]
-    {
+    if !(*p).dense_active() {
         if ret >= TEXT_LO && ret < TEXT_HI {
             let g = (ret - TEXT_LO) / 16;
             if let Some(w) = BORING.get(g / 64) {
